@@ -226,11 +226,165 @@ def _replay(rec):
     return 0
 
 
+# ----------------------------------------------------------------------------- in-place modification between constructions
+
+from pydra.compose import python as _py, workflow as _wf  # noqa: E402
+import typing as _ty  # noqa: E402
+
+
+class _Box:
+    """an ordinary (hashable by identity) object wrapping mutable state"""
+
+    def __init__(self, items):
+        self.items = list(items)
+
+    def __eq__(self, other):
+        return isinstance(other, _Box) and self.items == other.items
+
+    __hash__ = object.__hash__
+
+
+@_py.define
+def _Measure(v: _ty.Any) -> int:
+    items = v.items if isinstance(v, _Box) else (v[0] if isinstance(v, tuple) else (list(v.values()) if isinstance(v, dict) else v))
+    return sum(items) + 100 * len(items)
+
+
+@_wf.define(outputs=["out"])
+def _WfValue(v: _ty.Any):
+    m = _wf.add(_Measure(v=v), name="m")
+    return m.out
+
+
+INPLACE_KINDS = {
+    # kind -> (make a fresh value, modify it in place, plain snapshot)
+    "list": (lambda: [1, 2], lambda v: v.append(10), lambda v: list(v)),
+    "dict": (lambda: {"a": 1, "b": 2}, lambda v: v.update(c=10), lambda v: dict(v)),
+    "tuple-holding-a-list": (lambda: ([1, 2], 3), lambda v: v[0].append(10), lambda v: (list(v[0]), v[1])),
+    "object-holding-a-list": (lambda: _Box([1, 2]), lambda v: v.items.append(10), lambda v: list(v.items)),
+}
+
+
+def inplace_case(kind, first_op, second_op):
+    """construct (or run) W(v1); modify v1 IN PLACE; construct (or run) W(v2) with v2 a fresh value equal to the original
+    v1: the second construction holds v2's values, not v1's modified ones; returns the list of problems"""
+    from pydra.engine.workflow import Workflow
+
+    make, modify, snap = INPLACE_KINDS[kind]
+    Workflow.clear_cache()
+    tmp = Path(tempfile.mkdtemp(prefix="vf_c30i_"))
+    cwd = os.getcwd()
+    probs = []
+    try:
+        v1 = make()
+        expected_out = _Measure(v=make())(cache_root=tmp / "ref", worker="debug").out
+        if first_op == "construct":
+            Workflow.construct(_WfValue(v=v1))
+        else:
+            _WfValue(v=v1)(cache_root=tmp / "one", worker="debug")
+        modify(v1)
+        v2 = make()
+        if second_op == "construct":
+            wf = Workflow.construct(_WfValue(v=v2))
+            got = snap(wf.inputs.v)
+            if got != snap(make()):
+                probs.append(f"the second construction holds {got!r}: the first construction's value as modified later, not the value it was given ({snap(make())!r})")
+            node_v = snap(wf["m"]._task.v) if not hasattr(wf["m"]._task.v, "_field") else None
+            if node_v is not None and node_v != snap(make()):
+                probs.append(f"node m of the second construction holds {node_v!r}")
+        else:
+            out = _WfValue(v=v2)(cache_root=tmp / "two", worker="debug").out
+            if out != expected_out:
+                probs.append(f"the second run returned {out}, a fresh run of the same task returns {expected_out}")
+        if snap(v2) != snap(make()):
+            probs.append("the caller's second value was modified")
+        return probs
+    finally:
+        os.chdir(cwd)
+        Workflow.clear_cache()
+        shutil.rmtree(tmp, ignore_errors=True)
+
+
+def reassign_case(kind, first_op, second_op):
+    """construct / run t = W(v1); re-assign t.v = v2 (another value) on the SAME task object; construct / run t again:
+    the second operation must be that of W(v2)"""
+    from pydra.engine.workflow import Workflow
+
+    make, modify, snap = INPLACE_KINDS[kind]
+    Workflow.clear_cache()
+    tmp = Path(tempfile.mkdtemp(prefix="vf_c30r_"))
+    cwd = os.getcwd()
+    probs = []
+    try:
+        v2 = make()
+        modify(v2)  # a different value of the same kind
+        expected_out = _Measure(v=v2)(cache_root=tmp / "ref", worker="debug").out
+        t = _WfValue(v=make())
+        if first_op == "construct":
+            t.construct()
+        else:
+            t(cache_root=tmp / "one", worker="debug")
+        t.v = v2
+        if second_op == "construct":
+            got = snap(t.construct().inputs.v)
+            if got != snap(v2):
+                probs.append(f"after t.v = {snap(v2)!r} the task constructs a workflow holding {got!r}")
+        else:
+            out = t(cache_root=tmp / "two", worker="debug").out
+            if out != expected_out:
+                probs.append(f"after t.v = {snap(v2)!r} the task returned {out}, a fresh task with that value returns {expected_out}")
+        return probs
+    finally:
+        os.chdir(cwd)
+        Workflow.clear_cache()
+        shutil.rmtree(tmp, ignore_errors=True)
+
+
+def inplace_domain(ctx):
+    dom = ctx.domain(
+        "in-place modification between two constructions",
+        bound=f"value kinds {list(INPLACE_KINDS)} x first operation (construct, run) x second operation (construct, run): W(v1); v1 modified in place; W(v2) with v2 fresh and equal to the original v1",
+        rule="one real history per case (cache cleared before); the second operation must see v2's values / give the outputs of a fresh run; non-trivial always",
+        exhaustive=True,
+    )
+    for kind in INPLACE_KINDS:
+        for a in ("construct", "run"):
+            for b in ("construct", "run"):
+                probs = inplace_case(kind, a, b)
+                case = {"inplace": True, "kind": kind, "first": a, "second": b}
+                dom.case((kind, a, b), sample=case)
+                for p_ in probs:
+                    ctx.fail(None, f"C30: {kind}: {a} W(v1), modify v1 in place, {b} W(v2): {p_}", dict(case, problem=p_), domain=dom)
+    dom2 = ctx.domain(
+        "input re-assigned on the same task object between two operations",
+        bound=f"value kinds {list(INPLACE_KINDS)} x first operation (construct, run) x second operation (construct, run) on ONE task object t = W(v1) with t.v = v2 in between",
+        rule="one real history per case; the second operation must be that of a fresh W(v2); non-trivial always",
+        exhaustive=True,
+    )
+    for kind in INPLACE_KINDS:
+        for a in ("construct", "run"):
+            for b in ("construct", "run"):
+                probs = reassign_case(kind, a, b)
+                case = {"reassign": True, "kind": kind, "first": a, "second": b}
+                dom2.case((kind, a, b), sample=case)
+                for p_ in probs:
+                    ctx.fail(None, f"C30: {kind}: {a} t = W(v1), t.v = v2, {b} t: {p_}", dict(case, problem=p_), domain=dom2)
+
+
 def run(ctx):
     with T.private_hash_cache():
         _run(ctx)
+        inplace_domain(ctx)
 
 
 def replay(rec):
     with T.private_hash_cache():
+        if rec["case"].get("inplace") or rec["case"].get("reassign"):
+            c = rec["case"]
+            probs = (inplace_case if c.get("inplace") else reassign_case)(c["kind"], c["first"], c["second"])
+            print(f"replay C30: {c['kind']} {c['first']} -> modify -> {c['second']}: {probs or 'as expected'}")
+            if probs:
+                print(f"VIOLATION property=C30 replay={rec.get('_path', '')}")
+                return 1
+            return 0
         return _replay(rec)
